@@ -466,7 +466,7 @@ class Arm(Robot):
         # free_thetas = fsolve(@(x)(self.FK(SetElements(theta_init,
             #freeinds, x))-T), theta_init(freeinds));
         free_thetas = solver_result.x
-        theta = np.squeeze(theta_init)
+        theta = np.atleast_1d(np.squeeze(theta_init))
         theta[inds] = np.squeeze(free_thetas)
         pose_error = (goal_position - self.FK(theta))[0:6]
         if (fmr.Norm(pose_error[0:3]) <= self.pos_tolerance and
